@@ -263,3 +263,109 @@ func ruleLineReaderValue(c *Ctx, rid string) {
 		c.check(len(problems) == 0, rid, key, c.P.pos(f.Pos()), "bytes before the CR, unchanged", strings.Join(problems, "; "))
 	}
 }
+
+// rulePayloadStores: R01.e — what a constructor or setter puts into Message.bytes is the value
+// it was given. The distinction between a nil payload (null bulk) and an empty one lives in
+// that field, so a store must be nil, the function's own []byte parameter unchanged, or the
+// result of one of the parser's read functions; a copy is accepted only in the nil-preserving
+// shape (nil stays nil, anything else is copied into make([]byte, len(b))).
+func rulePayloadStores(c *Ctx, rid string) {
+	c.rule(rid, "every store into proto.Message.bytes in redis/proto stores nil, the function's []byte parameter itself, or the bytes returned by a parser read function; append([]byte(nil), b...) and similar copies turn an empty payload into the null one (or the null one into an empty one) and are reported")
+	scope := scopeSet(c.P.parserScope())
+	n := 0
+	for _, f := range c.P.RepoFuncs(pkgProto) {
+		if fnPkgPath(f) != pkgProto {
+			continue
+		}
+		ord := 0
+		allInstrs(f, func(ins ssa.Instruction) {
+			st, ok := ins.(*ssa.Store)
+			if !ok {
+				return
+			}
+			owner, fld, _, ok := fieldOf(st.Addr)
+			if !ok || owner != "proto.Message" || fld != "bytes" {
+				return
+			}
+			ord++
+			n++
+			key := fmt.Sprintf("%s/payload-store#%d", fnName(f), ord)
+			why := payloadPreserved(st.Val, scope, 0)
+			if why == "" {
+				c.ok(rid, key, c.P.instrPos(st), "the payload stored is the value given (nil stays nil, empty stays empty)")
+			} else {
+				c.bad(rid, key, c.P.instrPos(st), "the payload is transformed on its way into the message: "+why)
+			}
+		})
+	}
+	c.count("payload-stores", n)
+	c.floor("payload-stores", 2)
+}
+
+func payloadPreserved(v ssa.Value, parserScope map[*ssa.Function]bool, depth int) string {
+	if depth > 6 {
+		return "too deep"
+	}
+	if isNilConst(v) {
+		return ""
+	}
+	switch x := strip(v).(type) {
+	case *ssa.Parameter:
+		return ""
+	case *ssa.Const:
+		if x.Value == nil {
+			return ""
+		}
+	case *ssa.Extract:
+		if call, ok := x.Tuple.(*ssa.Call); ok {
+			if h := staticCallee(call.Common()); h != nil && parserScope[h] {
+				return "" // bytes read from the wire by the parser (R01.c decides their framing)
+			}
+		}
+	case *ssa.Call:
+		if h := staticCallee(x.Common()); h != nil && parserScope[h] {
+			return ""
+		}
+		if b, ok := x.Common().Value.(*ssa.Builtin); ok && b.Name() == "append" {
+			return "append(..., b...) yields nil for an empty b: an empty bulk string becomes the null bulk string"
+		}
+		return "result of " + calleeName(x.Common())
+	case *ssa.Phi:
+		// nil-preserving copy: nil on the edge where the source is nil, a copy elsewhere
+		for i, e := range x.Edges {
+			pred := x.Block().Preds[i]
+			if isNilConst(e) {
+				okNil := false
+				for _, at := range edgeFacts(pred, succIndex(pred, x.Block())) {
+					if at.Kind == "nil" && at.Pos {
+						if _, isPar := at.X.(*ssa.Parameter); isPar {
+							okNil = true
+						}
+					}
+				}
+				if !okNil {
+					return "nil is stored on a path where the source is not known to be nil"
+				}
+				continue
+			}
+			if mk, ok := strip(e).(*ssa.MakeSlice); ok {
+				// make([]byte, len(param)) filled by copy(dst, param): non-nil for every non-nil source
+				if ln := linOf(mk.Len); ln.isLen {
+					if _, isPar := ln.base.(*ssa.Parameter); isPar && ln.off == 0 {
+						continue
+					}
+				}
+				return "a buffer of another length replaces the payload"
+			}
+			if w := payloadPreserved(e, parserScope, depth+1); w != "" {
+				return w
+			}
+		}
+		return ""
+	case *ssa.MakeSlice:
+		return "a fresh buffer replaces the payload whatever it was: the null bulk string becomes an empty one"
+	case *ssa.Convert:
+		return "a conversion copies the payload (nil becomes empty or the reverse)"
+	}
+	return "unrecognised source " + v.String()
+}
